@@ -10,12 +10,15 @@ import (
 
 func init() { areas["ctx"] = Area{Gen: genCtx, Exec: execCtx} }
 
-// ctx.seq <ver> <providers: p0|p1|..  each = ev,ev,..> <events: ev,ev,..> <steps: u<i> | a<j>:<sig> | m<i>:<j> | c<i>>
+// ctx.seq <ver> <providers: p0|p1|..  each = ev,ev,..> <events: ev,ev,..> <steps: u<i> | a<j>:<sig> | m<i>:<j> | c<i> | f<i>:<j>:<sig>>
 // outcome: verdict of every a-step, comma separated. The checker is ONE allowerContext for the whole sequence
 // (created by the first u-step), exactly as state resolution reuses it.
 func execCtx(op string, args []string) string {
 	if op == "needed" {
 		return execNeeded(args) // C09: full / shuffled+extended / restricted-to-needed providers (gen_authneeded.go)
+	}
+	if op == "addauth" {
+		return execAddAuth(args) // C09: the real EventBuilder.AddAuthEvents selection (gen_authneeded.go)
 	}
 	if op != "seq" {
 		return "bad-op"
@@ -72,6 +75,12 @@ func execCtx(op string, args []string) string {
 			parts := strings.Split(st[1:], ":")
 			j, _ := strconv.Atoi(parts[0])
 			out = append(out, coarse(ctx.Allowed(evs[j])))
+		case 'f':
+			// f<i>:<j>:<sig> — the standalone Allowed(event j, provider OBJECT i) (whatever the object remembers)
+			parts := strings.Split(st[1:], ":")
+			i, _ := strconv.Atoi(parts[0])
+			j, _ := strconv.Atoi(parts[1])
+			out = append(out, coarse(gmsl.Allowed(evs[j], provs[i], StdQuerier)))
 		}
 	}
 	return strings.Join(out, ",")
@@ -88,7 +97,32 @@ func evArgs(evs []*Ev) string {
 	return strings.Join(a, ",")
 }
 
+// ctxWitnesses (tier "witness", run by hand to regenerate corpus/C09/ctx.ops): the inputs of the defects A5 / A6.
+func ctxWitnesses(o *Out, r *Rng) {
+	cr := "@c:hs1"
+	g := NewRoomGen(r, "10")
+	createA := g.MkCreate(cr, map[string]interface{}{"creator": cr, "room_version": "10"})
+	plA := g.Mk(spec.MRoomPowerLevels, cr, sp(""), map[string]interface{}{"users": map[string]interface{}{cr: 100}}, nil, nil, nil)
+	joinA := memberEv(g, "@b:hs1", "join")
+	msg := g.Mk("m.room.message", "@b:hs1", nil, map[string]interface{}{"body": "x"}, []string{"$p:hs1"}, nil, nil)
+	g2 := NewRoomGen(r, "10")
+	g2.RoomID = "!elsewhere:hs1"
+	joinB := memberEv(g2, "@b:hs1", "join")
+	evs := evArgs([]*Ev{msg, createA, plA, joinB, joinA})
+	// A5: the sender's only membership event is a join in ANOTHER room; one reused checker, updated with that provider
+	o.Count("witness.A5." + o.Do("seq", "10", evArgs([]*Ev{createA, plA, joinB}), evs, "u0,a0:0,f0:0:0"))
+	// A5, as state resolution drives it: one provider object, Clear + AddEvent + update + check
+	o.Count("witness.A5b." + o.Do("seq", "10", "-", evs, "u0,c0,m0:1,m0:2,m0:3,u0,a0:0"))
+	// A6: a provider that once held an event of another room, cleared, then filled with one-room state
+	o.Count("witness.A6." + o.Do("seq", "10", evArgs([]*Ev{joinB}), evs, "c0,m0:1,m0:2,m0:4,f0:0:0"))
+}
+
 func genCtx(o *Out, tier string, r *Rng) {
+	if tier == "witness" {
+		ctxWitnesses(o, r)
+		genAuthNeeded(o, tier, r)
+		return
+	}
 	n := 1200
 	if tier == "thorough" {
 		n = 40000
@@ -275,6 +309,94 @@ func genCtx(o *Out, tier string, r *Rng) {
 				}
 				o.Count("pattern.toggle." + typ)
 			}
+		}
+		if r.Chance(20) {
+			// same-ID pattern: two DIFFERENT events carrying ONE event ID (the trusted constructors take the ID as given; in
+			// versions 1 and 2 it is a free JSON field) on the power-levels / join-rules slot, swapped between refreshes of
+			// one provider object, with checks whose verdict depends on the differing content after each refresh - a checker
+			// that decides "already parsed" by event ID instead of by object keeps the first content
+			typ := Pick(r, []string{spec.MRoomPowerLevels, spec.MRoomJoinRules})
+			id := g.nextID("hs1")
+			var ea, eb *Ev
+			var probe *Ev
+			u := Pick(r, authUsers[1:])
+			if typ == spec.MRoomPowerLevels {
+				users := map[string]interface{}{}
+				if !verImpl.PrivilegedCreators() {
+					users[creator] = 100
+				}
+				ea = g.MkID(id, typ, creator, sp(""), map[string]interface{}{"users": users, "events_default": 0}, nil, nil, nil)
+				eb = g.MkID(id, typ, creator, sp(""), map[string]interface{}{"users": users, "events_default": 50}, nil, nil, nil)
+				probe = g.Mk("m.room.message", u, nil, map[string]interface{}{"body": "x"}, []string{"$p:hs1"}, nil, nil)
+			} else {
+				ea = g.MkID(id, typ, creator, sp(""), map[string]interface{}{"join_rule": "public"}, nil, nil, nil)
+				eb = g.MkID(id, typ, creator, sp(""), map[string]interface{}{"join_rule": "invite"}, nil, nil, nil)
+				probe = g.Mk(spec.MRoomMember, u, sp(u), map[string]interface{}{"membership": "join"}, []string{"$p:hs1"}, nil, nil)
+			}
+			um := g.Mk(spec.MRoomMember, u, sp(u), map[string]interface{}{"membership": Pick(r, []string{"join", "leave"})}, nil, nil, nil)
+			if ea != nil && eb != nil && probe != nil && um != nil {
+				var rest []*Ev
+				for _, e := range distinctKeys(append([]*Ev{create, um}, provs[0]...)) {
+					if e.PDU.Type() != typ {
+						rest = append(rest, e)
+					}
+				}
+				evs = append([]*Ev{probe}, rest...)
+				ia := len(evs)
+				evs = append(evs, ea, eb)
+				steps = []string{"u0"}
+				for _, which := range []int{0, 1, 1, 0, 1} {
+					steps = append(steps, "c0")
+					for k := range rest {
+						steps = append(steps, "m0:"+strconv.Itoa(1+k))
+					}
+					steps = append(steps, "m0:"+strconv.Itoa(ia+which), "u0", "a0:0", "f0:0:0")
+				}
+				o.Count("pattern.sameid." + typ)
+			}
+		} else if r.Chance(20) {
+			// foreign pattern: state resolution's Clear / AddEvent / update / check cycle in which some rounds also add an
+			// event of ANOTHER room (a join of the sender, a permissive power-levels or join-rules event); every check is
+			// made through the reused checker AND by the standalone Allowed on the same provider object, so a provider
+			// that remembers a room it no longer holds, or a checker that never asks, shows
+			g2 := NewRoomGen(r, ver)
+			if g2.v3 {
+				g2.MkCreate(creator, cc)
+			} else {
+				g2.RoomID = "!elsewhere:hs1"
+			}
+			var foreign []*Ev
+			for _, u := range authUsers {
+				if e := g2.Mk(spec.MRoomMember, u, sp(u), map[string]interface{}{"membership": "join"}, nil, nil, nil); e != nil {
+					foreign = append(foreign, e)
+				}
+			}
+			if e := g2.Mk(spec.MRoomPowerLevels, creator, sp(""), map[string]interface{}{"users_default": 100}, nil, nil, nil); e != nil {
+				foreign = append(foreign, e)
+			}
+			if e := g2.Mk(spec.MRoomJoinRules, creator, sp(""), map[string]interface{}{"join_rule": "public"}, nil, nil, nil); e != nil {
+				foreign = append(foreign, e)
+			}
+			pool := distinctKeys(provs[0])
+			base := len(evs)
+			evs = append(evs, pool...)
+			fbase := len(evs)
+			evs = append(evs, foreign...)
+			steps = []string{"u0"}
+			for k := 0; k < 3+r.Intn(5); k++ {
+				steps = append(steps, "c0")
+				for pi := range pool {
+					if r.Chance(85) {
+						steps = append(steps, "m0:"+strconv.Itoa(base+pi))
+					}
+				}
+				if r.Chance(45) && len(foreign) > 0 {
+					steps = append(steps, "m0:"+strconv.Itoa(fbase+r.Intn(len(foreign))))
+				}
+				j := strconv.Itoa(r.Intn(base))
+				steps = append(steps, "u0", "a"+j+":0", "f0:"+j+":0")
+			}
+			o.Count("pattern.foreign")
 		}
 		var ps []string
 		for _, p := range provs {
